@@ -168,11 +168,16 @@ func main() {
 	flag.StringVar(&driverPath, "driver", "", "path of the compiled Lean driver")
 	outp := flag.String("out", "", "result file")
 	replay := flag.String("replay", "", "replay file")
+	execPar := flag.Int("exec-par", 0, "child mode: execute the calls given on stdin from N goroutines released together")
 	measureMode := flag.Bool("measure", false, "child mode: run the one call given on stdin and print what it allocated")
 	execMode := flag.Bool("exec", false, "child mode: execute the calls given on stdin and print their results")
 	flag.Parse()
 	if *execMode {
 		execChild()
+		return
+	}
+	if *execPar > 0 {
+		execChildPar(*execPar)
 		return
 	}
 	if *measureMode {
@@ -193,8 +198,13 @@ func main() {
 		os.Exit(2)
 	}
 	checkDigest()
+	useEcho := *prop != "C12" && *prop != "C13" && *prop != "C14"
+	echoOff = !useEcho
 	f()
 	flushCorr()
+	if useEcho {
+		echoCheck(*prop)
+	}
 	res.Distinct = len(distinct)
 	res.WallS = time.Since(start).Seconds()
 	// deterministic order of the distribution keys is json's own (sorted)
@@ -274,4 +284,54 @@ func joinShow(xs []string) string {
 		o[i] = show(x)
 	}
 	return "[" + strings.Join(o, ", ") + "]"
+}
+
+// echoCheck repeats the sampled calls in a fresh process, in reverse order, and compares the projection each property
+// owns (verdict / error-or-not, set of extracted strings, list of invalid entries).
+func echoCheck(prop string) {
+	echoOff = true
+	defer func() { echoOff = false }()
+	if len(echoLog) == 0 {
+		return
+	}
+	exe, err := os.Executable()
+	if err != nil {
+		return
+	}
+	w := make([]*call, len(echoLog))
+	for i, c := range echoLog {
+		l := c.list
+		if c.isNil {
+			l = nil
+		} else if l == nil {
+			l = []string{}
+		}
+		w[i] = &call{fn: c.fn, expr: c.expr, list: l}
+	}
+	perm := make([]int, len(w))
+	for i := range perm {
+		perm[i] = len(w) - 1 - i
+	}
+	got, err := runChild(exe, w, perm)
+	if err != nil {
+		res.Notes = append(res.Notes, "fresh-process echo failed to run: "+err.Error())
+		fail(failure{Stream: "oracle", What: "the sampled calls of this check could not be repeated in a fresh process (the process died?): " + err.Error()})
+		return
+	}
+	res.Distribution["fresh_process_echo_calls"] = len(w)
+	for k, i := range perm {
+		g := got[k]
+		if w[i].fn == 1 && strings.HasPrefix(g, "ok ") {
+			parts := strings.Split(strings.TrimPrefix(g, "ok "), "\x1f")
+			if g == "ok " {
+				parts = nil
+			}
+			g = "ok " + hxl(uniqSorted(parts))
+		}
+		if g != echoLog[i].proj {
+			fail(failure{Stream: "oracle", What: "the same call gives a different result in a fresh process after other calls (the result depends on history): " + w[i].String(),
+				Case: &kase{Expr: w[i].expr, ExprHex: hx(w[i].expr), Allowed: w[i].list, Extra: map[string]string{"fn": itoa(w[i].fn), "echo": "1"}}, Impl: show(g), Expected: show(echoLog[i].proj)})
+			return
+		}
+	}
 }
